@@ -292,11 +292,11 @@ def run(tier, only=None):
         R.case([r["case"], i], True, sample=r["case"] if i % 53 == 0 else None, section="table")
         for sig in r["bad"]:
             R.violation(sig, {"case": r["case"], "i": i})
-    for r in check_exc(pmap(_random_job, range(60 if tier == "quick" else 600))):
+    for r in check_exc(pmap(_random_job, range(60 if tier == "quick" else 6000))):
         R.case(["random", r["k"]], True, sample=r["case"] if r["k"] % 29 == 0 else None, section="random")
         for sig in r["bad"]:
             R.violation(sig, {"k": r["k"], "case": r["case"]})
-    for r in check_exc(pmap(_atmos_history_job, range(4 if tier == "quick" else 24))):
+    for r in check_exc(pmap(_atmos_history_job, range(4 if tier == "quick" else 96))):
         for cls_, what, verdict, detail in r["cases"]:
             R.case(["atmos_history", r["k"], cls_, what], verdict != "skipped", section="atmos_history")
             if verdict in ("deviates", "exception_only_after_history"):
@@ -305,7 +305,7 @@ def run(tier, only=None):
         R.case(["units", r["k"]], True, sample=r["case"] if r["k"] % 5 == 0 else None, section="units")
         for sig, e in r["bad"]:
             R.violation(sig, {"k": r["k"], "case": r["case"], "err": e})
-    for r in check_exc(pmap(_atmos_job, range(4 if tier == "quick" else 16))):
+    for r in check_exc(pmap(_atmos_job, range(4 if tier == "quick" else 64))):
         R.case(["atmos", r["k"]], True, section="atmos")
         for sig in r["bad"]:
             R.violation(sig, {"k": r["k"]})
